@@ -75,7 +75,22 @@ func (v val) kept() []error {
 }
 
 type builder struct {
-	ctr int
+	ctr   int
+	slots []slotRecord // the slices custom multi-errors expose, with a copy taken at construction
+}
+
+// batchError is a typed multi-error of the kind produced by code that keeps
+// one result slot per work item: it exposes its own slice through
+// Unwrap() []error, and the slots of items that succeeded stay nil.
+type batchError struct{ slots []error }
+
+func (b *batchError) Error() string   { return fmt.Sprint("batch", len(b.slots), ": ", b.slots) }
+func (b *batchError) Unwrap() []error { return b.slots }
+
+type slotRecord struct {
+	owner    error
+	live     []error
+	pristine []error
 }
 
 func reverse(in []error) []error {
@@ -215,6 +230,33 @@ func (b *builder) build(s Spec) val {
 			}
 		}
 		return v
+	case "batch": // a typed multi-error exposing its own slice, nil slots kept
+		var args []error
+		any := false
+		for _, c := range cs {
+			args = append(args, c.err)
+			any = any || c.err != nil
+		}
+		if !any {
+			return val{depth: depth, hasNil: true}
+		}
+		e := &batchError{slots: args}
+		b.slots = append(b.slots, slotRecord{owner: e, live: args, pristine: append([]error{}, args...)})
+		v := val{err: e, dissolves: true, depth: depth + 1, hasNil: hasNil}
+		for _, c := range cs {
+			if c.err == nil {
+				continue
+			}
+			v.under = append(v.under, c.all()...)
+			v.flatUnder = append(v.flatUnder, c.kept()...)
+			v.flat = append(v.flat, c.flat...)
+			v.notes = append(v.notes, c.notes...)
+			v.nested = v.nested || c.nested || isStack(c.err)
+			for i := range v.types {
+				v.types[i] = v.types[i] || c.types[i]
+			}
+		}
+		return v
 	case "join": // ers.Join(children...)
 		var args []error
 		for _, c := range cs {
@@ -329,7 +371,7 @@ var ersKinds = map[string]bool{"join": true, "stack": true, "rawstack": true, "a
 func isStack(e error) bool { _, ok := e.(*ers.Stack); return ok }
 
 var kinds1 = []string{"wrap", "asstack", "wrapnote", "wrapfnote", "panic-error"}
-var kindsN = []string{"join", "join", "ejoin", "stack", "rawstack", "collector"}
+var kindsN = []string{"join", "join", "ejoin", "batch", "stack", "rawstack", "collector"}
 
 func genSpec(t *rapid.T, depth int) Spec {
 	k := rapid.IntRange(0, 11).Draw(t, "kind")
@@ -387,6 +429,39 @@ func checkSpec(t vkit.TB, s Spec) (v val) {
 
 	b := &builder{}
 	v = b.build(s)
+	// looking at an error must not change it: every custom multi-error
+	// of the tree is unwound once (as a caller inspecting a constituent
+	// would), then everything below is checked, and at the end the slices
+	// these errors expose must be what they were and a second Unwind of
+	// the result must list the same errors as the first.
+	for _, r := range b.slots {
+		_ = ers.Unwind(r.owner)
+	}
+	var firstUnwind []error
+	if v.err != nil {
+		firstUnwind = ers.Unwind(v.err)
+	}
+	defer func() {
+		if failing || v.err == nil {
+			return
+		}
+		for _, r := range b.slots {
+			for i := range r.pristine {
+				if r.live[i] != r.pristine[i] {
+					fail("input-mutated", "slot %d of the multi-error %q changed from %v to %v after it was inspected with Unwind / aggregated", i, r.owner, r.pristine[i], r.live[i])
+				}
+			}
+		}
+		again := ers.Unwind(v.err)
+		if len(again) != len(firstUnwind) {
+			fail("unwind-unstable", "a second Unwind of the result lists %d errors, the first listed %d: %v vs %v", len(again), len(firstUnwind), again, firstUnwind)
+		}
+		for i := range again {
+			if again[i] != firstUnwind[i] {
+				fail("unwind-unstable", "Unwind[%d] changed from %v to %v between two calls", i, firstUnwind[i], again[i])
+			}
+		}
+	}()
 	// a typed nil *Stack is not a nil error; the builder never makes one
 	if st, ok := v.err.(*ers.Stack); ok && st == nil {
 		v.err = nil
